@@ -140,7 +140,10 @@ def build_synth(case):
     df['period_consistency'] = ref.ref_period_consistency(df['period'].values, 'both')
     df['monotonicity'] = np.array(case['mono'], dtype=float)
     df['is_burst'] = ref.ref_labels_cycles(df, case['th'])
-    if case['offset_index']:
+    if case['offset_index'] == 'repeated':
+        h = (n + 1) // 2
+        df.index = pd.Index(list(range(h)) + list(range(n - h)))
+    elif case['offset_index']:
         df.index = df.index + case['offset_index']
     return df
 
@@ -182,7 +185,7 @@ def strat_synth(draw, tier):
           'monotonicity_threshold': draw(st.sampled_from([0.4, 0.8])),
           'min_n_cycles': draw(st.sampled_from([1, 1, 2, 3]))}
     return {'rise': rise, 'decay': decay, 'period': period, 'mono': mono, 'th': th, 'center': draw(st.sampled_from(['peak', 'trough'])),
-            'r': draw(st.sampled_from([0, 0, 0.05, 0.1, 0.3])), 'offset_index': draw(st.sampled_from([0, 0, 0, 1, 5, 100]))}
+            'r': draw(st.sampled_from([0, 0, 0.05, 0.1, 0.3])), 'offset_index': draw(st.sampled_from([0, 0, 0, 1, 5, 100, 'repeated']))}
 
 
 PARTS = [
